@@ -41,7 +41,7 @@ pub fn strategy(thorough: bool) -> BoxedStrategy<C10Case> {
         3 => (any::<u16>(), any::<u16>()).prop_map(|(item, len)| Fault::Truncate { item, len }),
         1 => any::<u16>().prop_map(|item| Fault::Empty { item }),
         3 => any::<u16>().prop_map(|item| Fault::Delete { item }),
-        3 => (0u8..24, any::<u8>()).prop_map(|(kind, salt)| Fault::Junk { kind, salt }),
+        3 => (0u8..26, any::<u8>()).prop_map(|(kind, salt)| Fault::Junk { kind, salt }),
     ];
     (2u8..=3, gen::history(&mix, len), vec(fault, 1..5), any::<u16>(), any::<u16>(), 0u8..8)
         .prop_map(|(n, ops, faults, split, sweep_item, sweep_bit)| C10Case {
@@ -104,6 +104,22 @@ pub fn junk(kind: u8, salt: u8, snap: &Snap) -> (String, Vec<u8>) {
             (format!("1-{}.delta", model::sha_hex(&b)), b)
         }
         15 => (format!("{}.delta.pack.delta", h), b"{}".to_vec()),
+        24 | 25 => {
+            // bytes of an existing block (24) / pack (25) under a name that holds only a prefix of their digest
+            let ext = if kind == 24 { ".delta" } else { ".pack" };
+            match snap.keys().filter(|k| k.ends_with(ext)).nth(salt as usize % 3).or(snap.keys().find(|k| k.ends_with(ext))).cloned() {
+                Some(k) => {
+                    let stem = k.trim_end_matches(ext);
+                    let cut = 1 + (salt as usize * 7) % 40;
+                    let name = match stem.split_once('-') {
+                        Some((i, hash)) if kind == 24 => format!("{}-{}{}", i, &hash[..cut.min(hash.len().saturating_sub(1))], ext),
+                        _ => format!("{}{}", &stem[..cut.min(stem.len().saturating_sub(1))], ext),
+                    };
+                    (name, snap[&k].clone())
+                }
+                None => ("1-ab.delta".into(), b"{}".to_vec()),
+            }
+        }
         k => {
             // hash-valid blocks with malformed fields
             let shapes = [
